@@ -46,8 +46,8 @@ JoinTexts(xs) == JoinRange(xs, 1, Len(xs))
 
 ConcatV(args) ==
     LET xs == FlattenArgs(args)
-        fe == FirstErr(xs)
-    IN IF fe.t = "err" THEN fe
+        fe == LeftmostErr(xs)
+    IN IF fe.t # "none" THEN fe
        ELSE IF \E i \in 1..Len(xs) : ToText(xs[i]).t = "open" THEN Open
        ELSE Txt(JoinTexts(xs))
 
